@@ -1,6 +1,7 @@
 import OpcuaModel.Gen.NodeIdGen
 import OpcuaModel.Props.C09
-/-! # Tie (A) for the NodeId kernel: the definitions GENERATED from the Python source are equal to the
+import OpcuaModel.Props.C03
+/-! # Tie (A) for the NodeId kernel and `extend_namespace_map`: the definitions GENERATED from the Python source are equal to the
 hand model, so every C09 theorem is a theorem about the code as written.  This file is re-checked against
 a freshly generated `NodeIdGen` on every run of the C09 / C03 checks. -/
 namespace Opcua.Tie
@@ -113,5 +114,83 @@ theorem gen_parse_mapped (n : NodeId) (m : List (Int × Int)) (hm : m ≠ []) (g
     bindE (Gen.nodeid_str n) (fun t => Gen.parse_nodeid t (some m) none) = .ok { n with ns := g } := by
   rw [print_eq]; simp only [bindE]; rw [parseNodeId_some_eq]
   exact C09.parse_mapped n m hm g hg hv
+
+/-! ### `extend_namespace_map` -/
+theorem lookup_append_none {β : Type} (k : Int) (m : List (Int × β)) (p : Int × β) (h : lookup k m = none) :
+    lookup k (m ++ [p]) = if p.1 = k then some p.2 else none := by
+  induction m with
+  | nil => obtain ⟨a, b⟩ := p; simp [lookup]
+  | cons q r ih =>
+    obtain ⟨a, b⟩ := q
+    simp only [lookup] at h
+    by_cases e : a = k
+    · simp [e] at h
+    · simp only [e, if_false] at h
+      show lookup k ((a, b) :: (r ++ [p])) = _
+      simp only [lookup, e, if_false]
+      exact ih h
+
+/-- the entries the loop adds for local indices `j+1, j+2, …` -/
+def tailFrom (j : Nat) (gs : List Nat) : List (Int × Int) :=
+  ((List.range' j gs.length).zip gs).map fun p => (((p.1 : Nat) : Int) + 1, ((p.2 : Nat) : Int))
+
+theorem nsMapOf_eq (gs : List Nat) : nsMapOf gs = (0, 0) :: tailFrom 0 gs := by
+  simp [nsMapOf, tailFrom, List.range_eq_range']
+
+theorem tailFrom_cons (j g : Nat) (gs : List Nat) :
+    tailFrom j (g :: gs) = (((j : Nat) : Int) + 1, ((g : Nat) : Int)) :: tailFrom (j + 1) gs := by
+  simp [tailFrom, List.range'_succ]
+
+theorem go_spec {f : Nat → Str → List Str × List (Int × Int) → Except PyErr (List Str × List (Int × Int))}
+    (hf : ∀ i n ex m, f i n (ex, m) = .ok (addUri ex n, pyDictSet m (((i : Nat) : Int) + 1) (((addUri ex n).idxOf n : Nat) : Int)))
+    (uris : List Str) (j : Nat) (ex : List Str) (m : List (Int × Int))
+    (hm : ∀ k : Int, ((j : Nat) : Int) + 1 ≤ k → lookup k m = none) :
+    pyEnumFoldE.go f j uris (ex, m) = .ok ((extendNs ex uris).1, m ++ tailFrom j (extendNs ex uris).2) := by
+  induction uris generalizing j ex m with
+  | nil => simp [pyEnumFoldE.go, extendNs, tailFrom]
+  | cons n rest ih =>
+    have hnone : lookup (((j : Nat) : Int) + 1) m = none := hm _ (Int.le_refl _)
+    have hset : pyDictSet m (((j : Nat) : Int) + 1) (((addUri ex n).idxOf n : Nat) : Int) =
+        m ++ [(((j : Nat) : Int) + 1, (((addUri ex n).idxOf n : Nat) : Int))] := by
+      simp [pyDictSet, hnone]
+    simp only [pyEnumFoldE.go, hf, hset]
+    have hm' : ∀ k : Int, (((j + 1 : Nat) : Nat) : Int) + 1 ≤ k →
+        lookup k (m ++ [(((j : Nat) : Int) + 1, (((addUri ex n).idxOf n : Nat) : Int))]) = none := by
+      intro k hk
+      have h1 : lookup k m = none := hm k (by omega)
+      rw [lookup_append_none k m _ h1]
+      have : ¬ (((j : Nat) : Int) + 1 = k) := by omega
+      simp [this]
+    rw [ih (j + 1) (addUri ex n) _ hm']
+    simp [extendNs, tailFrom_cons, List.append_assoc]
+
+/-- **tie (A) for `extend_namespace_map`**: the definition generated from the source, started with the
+    map `{0: 0}` as `iterparse_xml` does, returns the global list and the namespace map of the hand
+    model — so the C03 theorems are theorems about the code as written -/
+theorem extend_eq (e uris : List Str) :
+    Gen.extend_namespace_map e uris [(0, 0)] = .ok (nsMapOf (extendNs e uris).2, (extendNs e uris).1) := by
+  unfold Gen.extend_namespace_map
+  have h0 : pyContains ([((0 : Int), (0 : Int))] : List (Int × Int)) (0 : Int) = true := by decide
+  simp only [h0, Bool.not_true, Bool.false_eq_true, if_false, bindE, pyEnumFoldE]
+  rw [go_spec (f := _) ?_ uris 0 e [(0, 0)] ?_]
+  · simp [nsMapOf_eq]
+  · intro i n ex m
+    by_cases hmem : n ∈ ex
+    · simp [pyContains, PyContains.has, hmem, bindE, pyListIndex, addUri]
+    · simp [pyContains, PyContains.has, hmem, bindE, pyListIndex, pyListAppend, addUri]
+  · intro k hk
+    have : ¬ ((0 : Int) = k) := by omega
+    simp [lookup, this]
+
+
+/-- C03's `extend_correct`, restated for the generated definition: the i-th URI of a document is found
+    in the returned global list at the index the returned map gives for local index i+1 -/
+theorem gen_extend_correct (e uris : List Str) (i : Nat) (hi : i < uris.length) :
+    ∃ m l g, Gen.extend_namespace_map e uris [(0, 0)] = .ok (m, l) ∧
+      lookup (((i : Nat) : Int) + 1) m = some ((g : Nat) : Int) ∧ l[g]? = uris[i]? := by
+  obtain ⟨g, h1, h2⟩ := C03.extend_correct e uris i hi
+  refine ⟨_, _, g, extend_eq e uris, ?_, h2⟩
+  rw [C03.lookup_nsMapOf, h1]; rfl
+
 
 end Opcua.Tie
